@@ -192,7 +192,7 @@ theorem aclose_pollT {g : E2E.Cfg} {rd : ARead} {wr : Bool} (ok : AOK g rd wr) {
 
 theorem aout_finishT {g : E2E.Cfg} {rd : ARead} {wr : Bool} (ok : AOK g rd wr) {X lost : Bytes} {c : Conn} {r0 r' : AReq}
     {h0 : HState} {e2 : Run.Env} {O1 G dO : Bytes} (hph : c.phase = .handler r0 h0)
-    (hw : WOutG g.p.id g.data g.st (g.L1 ++ O1) r' e2 (handlerPoll (handlerFuel c.env r0) r0 h0 c.env))
+    (hw : WOutG g.p.id g.data g.st (g.L1 ++ O1) r' e2 (handlerPoll ((handlerFuel c.env r0 + scriptOf c)) r0 h0 c.env))
     (hts0 : TStep c.env.tr e2.tr) (hsg : e2.segs = c.env.segs)
     (hr2 : R2 g.p.id g.mc g.cap g.body r'.sp G (e2.tr.input ++ lost) dO)
     (hreq : r'.sp.request = g.p.request) (hmc : r'.sp.maxConns = g.mc)
@@ -201,7 +201,7 @@ theorem aout_finishT {g : E2E.Cfg} {rd : ARead} {wr : Bool} (ok : AOK g rd wr) {
     (hsc : c.scripts = g.more) :
     GRes3 (SAc g X lost) (AAc g lost) (FAc g lost) 3 c := by
   have hstep := C07.handler_step c r0 h0 hph
-  rcases hhp : handlerPoll (handlerFuel c.env r0) r0 h0 c.env with ⟨r2, h2, e3, res⟩
+  rcases hhp : handlerPoll ((handlerFuel c.env r0 + scriptOf c)) r0 h0 c.env with ⟨r2, h2, e3, res⟩
   rw [hhp] at hstep hw
   obtain ⟨hr2', q1, q2, q3, q4⟩ := hw
   simp only at hr2' q1 q2 q3 q4
@@ -255,8 +255,8 @@ theorem afirstC {g : E2E.Cfg} {rd : ARead} {wr : Bool} (ok : AOK g rd wr) {X los
     have : e1 ++ c.env.tr.input = X := hwire
     rw [this]; exact hcut
   have hr20 := r2_auth_start ok (input := c.env.tr.input ++ lost) hlen hwire'
-  obtain ⟨f, hf⟩ : ∃ f, handlerFuel c.env (AReq.new (Str.Parser.fromParser g.cap g.p.request e1 g.mc)) = f + 1 :=
-    ⟨handlerFuel c.env (AReq.new (Str.Parser.fromParser g.cap g.p.request e1 g.mc)) - 1, by
+  obtain ⟨f, hf⟩ : ∃ f, (handlerFuel c.env (AReq.new (Str.Parser.fromParser g.cap g.p.request e1 g.mc)) + scriptOf c) = f + 1 :=
+    ⟨(handlerFuel c.env (AReq.new (Str.Parser.fromParser g.cap g.p.request e1 g.mc)) + scriptOf c) - 1, by
       have := handlerFuel_ge c.env (AReq.new (Str.Parser.fromParser g.cap g.p.request e1 g.mc)); omega⟩
   have hfge := handlerFuel_ge c.env (AReq.new (Str.Parser.fromParser g.cap g.p.request e1 g.mc))
   have hfu := ok.hfu
